@@ -4,5 +4,5 @@ CONSTANTS
   MaxCalls = 4
   MaxBatch = 2
   AddInsteadOfUpdate = FALSE
-INVARIANTS Inv_Dag Inv_C16_Edge Inv_C16_Batch Inv_DescMap
+INVARIANTS Inv_Dag Inv_C16_Edge Inv_C16_Batch Inv_DescMap Inv_AddFnFrame
 CHECK_DEADLOCK FALSE
